@@ -88,6 +88,9 @@ func c14DocNilElems(c *core.Ctx) {
 	}
 	// slice parameters that receive a document slice at some call site (to a fixpoint)
 	sliceParam := map[*types.Var]string{}
+	// members of other structs (validation rule objects: `&exchangeRateValidation{rates: rates}`)
+	// that are given a document slice
+	sliceField := map[*types.Var]string{}
 	var isDocSlice func(fd *core.FuncDecl, ld *core.LocalDefs, e ast.Expr, depth int) string
 	var returnsDocSlice func(fn *types.Func, depth int) string
 	isDocSlice = func(fd *core.FuncDecl, ld *core.LocalDefs, e ast.Expr, depth int) string {
@@ -122,6 +125,9 @@ func c14DocNilElems(c *core.Ctx) {
 			if f := core.FieldOf(info, x); f != nil {
 				if docSliceField(f, fieldOwner(info, x)) {
 					return types.ExprString(x)
+				}
+				if from, ok := sliceField[f]; ok {
+					return from
 				}
 			}
 		case *ast.SliceExpr:
@@ -216,6 +222,54 @@ func c14DocNilElems(c *core.Ctx) {
 		for _, fd := range funcs {
 			info := fd.Pkg.TypesInfo
 			ast.Inspect(fd.Decl.Body, func(n ast.Node) bool {
+				switch x := n.(type) {
+				case *ast.CompositeLit:
+					if _, st := core.StructOf(info.TypeOf(x)); st != nil {
+						for _, el := range x.Elts {
+							kv, ok := el.(*ast.KeyValueExpr)
+							if !ok {
+								continue
+							}
+							id, _ := kv.Key.(*ast.Ident)
+							if id == nil {
+								continue
+							}
+							f, _ := info.Uses[id].(*types.Var)
+							if f == nil || !f.IsField() {
+								continue
+							}
+							if _, done := sliceField[f]; done {
+								continue
+							}
+							if from := isDocSlice(fd, ldOf(fd), kv.Value, 0); from != "" {
+								sliceField[f] = from + " (kept in " + core.TypeString(info.TypeOf(x)) + "." + f.Name() + ")"
+								changed = true
+							}
+						}
+					}
+					return true
+				case *ast.AssignStmt:
+					if len(x.Lhs) == len(x.Rhs) {
+						for i, l := range x.Lhs {
+							se, ok := ast.Unparen(l).(*ast.SelectorExpr)
+							if !ok {
+								continue
+							}
+							f := core.FieldOf(info, se)
+							if f == nil || docSliceField(f, fieldOwner(info, se)) {
+								continue
+							}
+							if _, done := sliceField[f]; done {
+								continue
+							}
+							if from := isDocSlice(fd, ldOf(fd), x.Rhs[i], 0); from != "" {
+								sliceField[f] = from + " (kept in the member " + f.Name() + ")"
+								changed = true
+							}
+						}
+					}
+					return true
+				}
 				call, ok := n.(*ast.CallExpr)
 				if !ok {
 					return true
@@ -295,12 +349,28 @@ func c14DocNilElems(c *core.Ctx) {
 		fd := it.fd
 		info := fd.Pkg.TypesInfo
 		ff := core.NewFuncFlow(fd)
+		litFlows := map[*ast.FuncLit]*core.Flow{}
 		nonNil := func(at ast.Node) bool {
-			node := ff.Flow.EnclosingNode(at)
+			flow := ff.Flow
+			// inside a closure: the closure body's own flow (its guards are what protects the use)
+			var lit *ast.FuncLit
+			ast.Inspect(fd.Decl.Body, func(m ast.Node) bool {
+				if fl, ok := m.(*ast.FuncLit); ok && fl.Pos() <= at.Pos() && at.End() <= fl.End() {
+					lit = fl // innermost wins (visited last)
+				}
+				return true
+			})
+			if lit != nil {
+				if litFlows[lit] == nil {
+					litFlows[lit] = core.NewFlow(info, lit.Body)
+				}
+				flow = litFlows[lit]
+			}
+			node := flow.EnclosingNode(at)
 			if node == nil {
 				return false
 			}
-			for l, val := range ff.Flow.CondsAt(node) {
+			for l, val := range flow.CondsAt(node) {
 				g := core.GuardOf(info, l, ff.Errs)
 				if (g.Kind == "nil" || g.Kind == "err") && g.X != nil && core.VarOf(info, g.X) == it.v && val == g.Neg {
 					return true
